@@ -324,7 +324,9 @@ impl Model {
 	}
 
 	fn chunk(&mut self, n: usize) -> Vec<F2> {
-		let dt = n as f64 / SR as f64;
+		// (the duration of a chunk is formed as the renderer forms it - frame duration times frames -
+		// so that a clock time reached exactly at the end of a chunk falls on the same side here)
+		let dt = (1.0 / SR as f64) * n as f64;
 		// clocks advance before the mixer
 		for c in self.clocks.iter_mut() {
 			if c.place == Place::Live && c.ticking {
@@ -548,6 +550,9 @@ fn run_case(c: &Case) -> Result<Flags, Failure> {
 					want.extend(model.chunk(k));
 					left -= k;
 				}
+				if std::env::var("KVERIF_DEBUG").is_ok() {
+					eprintln!("op #{oi} Callback({n}): out[0]={} want[0]={:?} states={:?} model={:?} clocks={:?}", cb.out[0], want[0], tracks.iter().map(|t| t.as_ref().map(|h| h.state())).collect::<Vec<_>>(), model.tracks.iter().map(|t| t.state).collect::<Vec<_>>(), clocks.iter().map(|c| c.as_ref().map(|h| (h.time().ticks, h.time().fraction))).collect::<Vec<_>>());
+				}
 				for i in 0..*n {
 					let (l, r) = (cb.out[2 * i] as f64, cb.out[2 * i + 1] as f64);
 					if l != 0.0 {
@@ -643,6 +648,8 @@ fn decode(src: &mut Src, ctx: &mut Ctx) -> Case {
 					_ => 1,
 				})
 			}
+			// (the default clock capacity is 8; capacities are C08's subject)
+			1 if n_clocks >= 8 => Op::Callback(ibs),
 			1 => {
 				n_clocks += 1;
 				clock_dropped.push(false);
